@@ -17,6 +17,9 @@ pub broadcast proof fn axiom_f32_mul_fn() ensures #[trigger] <f32 as MulSpec<f32
 // ASSUME(A-F1)
 pub broadcast proof fn axiom_f32_div_fn() ensures #[trigger] <f32 as DivSpec<f32>>::obeys_div_spec() { admit(); }
 
+// ASSUME(A-F2): the comparison operators of f32 are the ones `partial_cmp` induces
+pub proof fn axiom_f32_cmp_fn() ensures <f32 as PartialOrdSpec>::obeys_partial_cmp_spec() { admit(); }
+
 pub open spec fn fadd(a: f32, b: f32) -> f32 { a.add_spec(b) }
 pub open spec fn fsub(a: f32, b: f32) -> f32 { a.sub_spec(b) }
 pub open spec fn fmul(a: f32, b: f32) -> f32 { a.mul_spec(b) }
